@@ -25,6 +25,14 @@ from standins import oracle as O
 REL = 'kingdon/codegen.py'
 
 
+def _rcase(op, sig, xk, yk=None):
+    """what a native replay of a refuted identity needs: operator, signature, stored blades of the failing shape"""
+    c = {'op': op, 'signature': [int(v) for v in sig], 'x_keys': [int(k) for k in xk]}
+    if yk is not None:
+        c['y_keys'] = [int(k) for k in yk]
+    return c
+
+
 def _ob(ctx, name, goal, meta=None):
     """obligations of this module are decided by exact normalisation of polynomials (kind 'poly' in the evidence)"""
     ctx.oblige(name, goal, 'poly', meta)
@@ -355,15 +363,17 @@ def _hitzer_one(H, fuc, d, sig):
                     left = _gp(X, N, sigv)
                     right = _gp(N, X, sigv)
                     _ob(ctx, 'x * num == denom (a scalar): polynomial identity in the coefficients of a generic x',
-                               set(left) <= {0} and left.get(0, IP()) == denom, meta={'non_scalar_blades': sorted(set(left) - {0})[:8]})
+                               set(left) <= {0} and left.get(0, IP()) == denom,
+                               meta={'non_scalar_blades': sorted(set(left) - {0})[:8], 'replay_case': _rcase('inv', sigv, range(2 ** d))})
                     _ob(ctx, 'num * x == denom: the inverse is two-sided', set(right) <= {0} and right.get(0, IP()) == denom,
-                               meta={'non_scalar_blades': sorted(set(right) - {0})[:8]})
+                               meta={'non_scalar_blades': sorted(set(right) - {0})[:8], 'replay_case': _rcase('inv', sigv, range(2 ** d))})
                 else:
                     A, B = num.lazy
                     xa = _gp(X, A.comp, sigv)
                     full = _gp(xa, B.comp, sigv)
                     _ob(ctx, 'x * num == denom (a scalar), with num = A * B kept lazy and x * (A * B) == (x * A) * B by L-assoc',
-                               set(full) <= {0} and full.get(0, IP()) == denom, meta={'non_scalar_blades': sorted(set(full) - {0})[:8]})
+                               set(full) <= {0} and full.get(0, IP()) == denom,
+                               meta={'non_scalar_blades': sorted(set(full) - {0})[:8], 'replay_case': _rcase('inv', sigv, range(2 ** d))})
                     ctx.notes.append('two-sidedness for d = 5 by: a right inverse in a finite-dimensional associative unital algebra is a left inverse')
                 _ob(ctx, 'denom is not the zero polynomial (the formula is not vacuous)', bool(denom))
                 return r
@@ -399,7 +409,8 @@ def vc_inv_patterns(H, tier='quick'):
                     if not (set(left) <= {0} and left.get(0, IP()) == denom and set(right) <= {0} and right.get(0, IP()) == denom):
                         bad.append(G)
                 _ob(ctx, f'operands restricted to any set of grades ({n} patterns): y * num == num * y == denom as polynomial identities',
-                           not bad, meta={'failing_grade_sets': bad[:6]})
+                           not bad, meta={'failing_grade_sets': bad[:6],
+                                          'replay_case': _rcase('inv', sig, [k for k in range(2 ** d) if O.pc(k) in bad[0]]) if bad else None})
             H.run_paths(fuc, f'patterns,d={d},signature={sig}', body)
 
 
@@ -426,6 +437,7 @@ def vc_compositions_generic(H, tier='quick'):
                         xshapes = xshapes + [(f'grade {g}', (lambda k, g=g: O.pc(k) == g)) for g in range(d + 1)]
                     spec = {'sw': 'x * y * ~x', 'proj': '(x | y) * ~y', 'normsq': 'x * ~x'}[name]
                     failing = []
+                    rcase = None
                     for xn, xf in xshapes:
                         for yn, yf in yshapes:
                             world, _ = _generic(d, sig)
@@ -450,9 +462,11 @@ def vc_compositions_generic(H, tier='quick'):
                             bad = sorted(k for k in set(got) | set(want) if not (got.get(k, IP()) == want.get(k, IP())))
                             if bad:
                                 failing.append((xn, yn, bad[:4]))
+                                if rcase is None:
+                                    rcase = _rcase(name, sig, x.comp, y.comp if name != 'normsq' else None)
                     _ob(ctx, f'codegen_{name} on generic operands (x: generic / even / odd; y: generic / each single grade) == {spec}: every '
                                'coefficient is the same polynomial (no blade dropped unless identically zero)',
-                               not failing, meta={'failing_shapes': failing[:6]})
+                               not failing, meta={'failing_shapes': failing[:6], 'replay_case': rcase})
                 H.run_paths(fuc, f'generic,d={d},signature={sig}', body)
 
 
@@ -522,7 +536,7 @@ def vc_div_generic(H, tier='quick'):
                 want = {k: v * denom for k, v in x.comp.items()}
                 bad = sorted(k for k in set(back) | set(want) if not (back.get(k, IP()) == want.get(k, IP())))
                 _ob(ctx, '(x / y) * y == x: the quotient is x * inverse(y) (inverse on the right), as a polynomial identity', not bad,
-                           meta={'differing_blades': bad[:8]})
+                           meta={'differing_blades': bad[:8], 'replay_case': _rcase('div', sig, x.comp, y.comp)})
                 return r
             H.run_paths(fuc, f'div,d={d},signature={list(sig)}', body)
 
@@ -542,14 +556,19 @@ def vc_outerexp_generic(H, tier='quick'):
                 if d <= 4:
                     shapes.append(('generic without scalar part', lambda k: O.pc(k) >= 1))
                 failing = []
+                rcase = None
                 for sn, sf in shapes:
                     world, _ = _generic(d, sig)
                     x = RefMV(world, {k: IP.var(k) for k in range(2 ** d) if sf(k)})
                     wn = sym('warnings', attrs={'warn': sym('warn', callable_result=lambda i, m, a, k: None)})
                     r = H.closure(Interp(ctx, source_name=REL), fuc, {'warnings': wn})(x)
-                    if not isinstance(r, RefMV):
+                    if isinstance(r, RefMV):
+                        got = r._need()
+                    elif isinstance(r, dict) and all(isinstance(k, int) for k in r):
+                        got = {k: IP.lift(v) if not isinstance(v, IP) else v for k, v in r.items()}
+                    else:
                         raise OutOfSubset(f'codegen_{name} returned {type(r).__name__}')
-                    got = {k: v for k, v in r._need().items() if v}
+                    got = {k: v for k, v in got.items() if v}
                     want, term = {}, {0: IP({(): 1})}
                     for k in range(0, d + 1):
                         if k:
@@ -562,9 +581,11 @@ def vc_outerexp_generic(H, tier='quick'):
                     bad = sorted(k for k in set(got) | set(want) if not (got.get(k, IP()) == want.get(k, IP())))
                     if bad:
                         failing.append((sn, bad[:4]))
+                        if rcase is None:
+                            rcase = _rcase(name, sig, x.comp)
                 which = {'outerexp': 'all k', 'outersin': 'odd k', 'outercos': 'even k'}[name]
                 _ob(ctx, f'codegen_{name} == sum over {which} <= d of x^(wedge k) / k! on generic operands of every single grade >= 1 (and all of them together)',
-                           not failing, meta={'failing_shapes': failing[:6]})
+                           not failing, meta={'failing_shapes': failing[:6], 'replay_case': rcase})
             H.run_paths(fuc, f'generic,d={d}', body)
 
 
@@ -627,6 +648,7 @@ def vc_products_generic(H, tier='quick', only_ops=None):
                 def body(ctx, d=d, sig=sig, name=name, shapes=shapes):
                     N = 2 ** d
                     failing = []
+                    rcase = None
                     for xn, xf in shapes:
                         for yn, yf in shapes:
                             world, _ = _generic(d, sig)
@@ -644,8 +666,10 @@ def vc_products_generic(H, tier='quick', only_ops=None):
                             bad = sorted(k for k in set(got) | set(want) if not (got.get(k, IP()) == want.get(k, IP())))
                             if bad:
                                 failing.append((xn, yn, bad[:4]))
+                                if rcase is None:
+                                    rcase = _rcase(name, sig, x.comp, y.comp)
                     _ob(ctx, f'codegen_{name} on generic operands of {len(shapes)}x{len(shapes)} shapes == its definition over the reference product '
-                        '(every coefficient the same polynomial)', not failing, meta={'failing_shapes': failing[:6]})
+                        '(every coefficient the same polynomial)', not failing, meta={'failing_shapes': failing[:6], 'replay_case': rcase})
                 H.run_paths(fs[name], f'generic,d={d},signature={sig}', body)
 
 
@@ -690,6 +714,6 @@ def vc_unary_generic(H, tier='quick', only_ops=None):
                     want = {k: v for k, v in want.items() if v}
                     bad = sorted(k for k in set(got) | set(want) if not (got.get(k, IP()) == want.get(k, IP())))
                     _ob(ctx, f'codegen_{name} on a generic operand == its definition (blade-wise sign map / product with the pseudoscalar or its inverse)',
-                        not bad, meta={'differing_blades': bad[:8]})
+                        not bad, meta={'differing_blades': bad[:8], 'replay_case': _rcase(name, sig, X)})
                     return r
                 H.run_paths(fs[name], f'generic,d={d},signature={sig}', body)
